@@ -362,3 +362,101 @@ def aes_cbc_encrypt(key: bytes, iv: bytes, data: bytes) -> bytes:
 
 def aes_ecb_encrypt(key: bytes, data: bytes) -> bytes:
     return b"".join(aes_encrypt_block(key, data[i:i + 16]) for i in range(0, len(data), 16))
+
+
+# ----------------------------------------------------------------------------- legacy PPT: RC4 CryptoAPI encryption ([MS-PPT] 2.3.7, [MS-OFFCRYPTO] 2.3.5)
+def rc4(key: bytes, data: bytes) -> bytes:
+    s = list(range(256))
+    j = 0
+    for i in range(256):
+        j = (j + s[i] + key[i % len(key)]) & 0xFF
+        s[i], s[j] = s[j], s[i]
+    i = j = 0
+    out = bytearray()
+    for b in data:
+        i = (i + 1) & 0xFF
+        j = (j + s[i]) & 0xFF
+        s[i], s[j] = s[j], s[i]
+        out.append(b ^ s[(s[i] + s[j]) & 0xFF])
+    return bytes(out)
+
+
+def ole_all_streams(data: bytes):
+    """[(name, bytes)] of the root-level streams of an OLE file (root-level only; raises if there are storages)."""
+    import olefile
+    with olefile.OleFileIO(io.BytesIO(data)) as ole:
+        out = []
+        for p in ole.listdir(streams=True, storages=True):
+            if len(p) != 1 or not ole.get_type(p) == olefile.STGTY_STREAM:
+                raise ValueError("nested storage")
+            out.append((p[0], ole.openstream(p).read()))
+    return out
+
+
+def ppt_encrypt(data: bytes, password="pw123", doc_props_encrypted=False, salt=bytes(range(16))) -> bytes:
+    """Encrypt a single-edit PPT file with RC4 CryptoAPI as [MS-PPT] 2.3.7 describes: every persist object is
+    RC4-encrypted with the key of its persist id, a CryptSession10Container becomes a new persist object, the
+    UserEditAtom gets encryptSessionPersistIdRef, CurrentUserAtom.headerToken = 0xF3D1C4DF.
+    doc_props_encrypted=False: fDocProps set, summary streams stay in the clear and NO EncryptedSummary stream
+    exists; True: the summary streams are replaced by an EncryptedSummary stream."""
+    import hashlib
+    streams = dict(ole_all_streams(data))
+    cu = bytearray(streams["Current User"])
+    pd = bytearray(streams["PowerPoint Document"])
+    off_edit = struct.unpack_from("<I", cu, 16)[0]
+    _, typ, ln = struct.unpack_from("<HHI", pd, off_edit)
+    assert typ == 0x0FF5 and ln == 28
+    last_slide, version, off_last, off_dir, doc_ref, max_written, last_view = struct.unpack_from("<IIIIIIH", pd, off_edit + 8)
+    assert off_last == 0, "single user edit expected"
+    _, t2, dl = struct.unpack_from("<HHI", pd, off_dir)
+    assert t2 == 0x1772 and off_dir + 8 + dl == off_edit and off_edit + 36 == len(pd)
+    dir_body = bytes(pd[off_dir + 8: off_dir + 8 + dl])
+    objs, k = {}, 0
+    while k < len(dir_body):
+        w = struct.unpack_from("<I", dir_body, k)[0]
+        pid, cnt = w & 0xFFFFF, w >> 20
+        k += 4
+        for c in range(cnt):
+            objs[pid + c] = struct.unpack_from("<I", dir_body, k)[0]
+            k += 4
+    h0 = hashlib.sha1(salt + password.encode("utf-16-le")).digest()
+
+    def key(block):
+        return hashlib.sha1(h0 + struct.pack("<I", block)).digest()[:16]
+    for pid, off in objs.items():
+        ln_obj = 8 + struct.unpack_from("<I", pd, off + 4)[0]
+        pd[off:off + ln_obj] = rc4(key(pid), bytes(pd[off:off + ln_obj]))
+    verifier = bytes((i * 11 + 5) & 0xFF for i in range(16))
+    ev = rc4(key(0), verifier + hashlib.sha1(verifier).digest())
+    csp = "Microsoft Enhanced Cryptographic Provider v1.0".encode("utf-16-le") + b"\0\0"
+    flags = 0x04 | (0 if doc_props_encrypted else 0x08)       # fCryptoAPI, fDocProps
+    hdr = struct.pack("<IIIIIIII", flags, 0, 0x6801, 0x8004, 128, 1, 0, 0) + csp
+    body = struct.pack("<HHII", 4, 2, flags, len(hdr)) + hdr + struct.pack("<I", 16) + salt + ev[:16] + struct.pack("<I", 20) + ev[16:]
+    crypt = struct.pack("<HHI", 0x000F, 0x2F14, len(body)) + body
+    new_pid = max(objs) + 1
+    off_crypt = off_dir
+    new_dir_body = dir_body + struct.pack("<II", new_pid | (1 << 20), off_crypt)
+    new_dir = struct.pack("<HHI", 0, 0x1772, len(new_dir_body)) + new_dir_body
+    off_new_dir = off_crypt + len(crypt)
+    off_new_edit = off_new_dir + len(new_dir)
+    edit = struct.pack("<HHI", 0, 0x0FF5, 32) + struct.pack("<IIIIIIHH", last_slide, version, 0, off_new_dir, doc_ref,
+                                                            max(max_written, new_pid), last_view, 0) + struct.pack("<I", new_pid)
+    pd2 = bytes(pd[:off_dir]) + crypt + new_dir + edit
+    struct.pack_into("<I", cu, 12, 0xF3D1C4DF)
+    struct.pack_into("<I", cu, 16, off_new_edit)
+    out = []
+    for name, d in streams.items():
+        if name == "Current User":
+            out.append((name, bytes(cu)))
+        elif name == "PowerPoint Document":
+            out.append((name, pd2))
+        elif name == "Pictures":
+            out.append((name, rc4(key(0), d)))
+        elif name in ("\x05SummaryInformation", "\x05DocumentSummaryInformation") and doc_props_encrypted:
+            continue
+        else:
+            out.append((name, d))
+    if doc_props_encrypted:
+        blob = streams.get("\x05SummaryInformation", b"") + streams.get("\x05DocumentSummaryInformation", b"")
+        out.append(("EncryptedSummary", rc4(key(0), blob)))
+    return cfb(out)
